@@ -718,7 +718,7 @@ section coerceprog
 open CoProg
 
 /-- **coerceProg_refines** — for EVERY program that meets the decidable obligation `progOk`
-    (first element gives `ff`, `ff` labels the result, uniform branch keeps the readings, the loop
+    (first element gives `ff`, the mixed-units test looks at every element, `ff` labels the result, uniform branch keeps the readings, the loop
     body appends exactly `datum.in_units(ff)` under the error guard in every abstract element
     state: any dtype kind × commensurable or not × unit equal or not), interpreting the program on
     any list (any length, any readings, scales, offsets, dimensions, dtype kinds, over any carrier
@@ -727,7 +727,7 @@ theorem coerceProg_refines {K : Type} [Add K] [Sub K] [Mul K] [Div K]
     (P : Prog) (hP : progOk P = true) (ne : CoItem K → CoItem K → Bool) (items : List (CoElem K)) :
     coerceProg P ne items = coerceList ne (items.map (·.item)) := by
   simp only [progOk, Bool.and_eq_true, beq_iff_eq, List.all_eq_true] at hP
-  obtain ⟨⟨⟨h1, h2⟩, h3⟩, h4⟩ := hP
+  obtain ⟨⟨⟨⟨h1, h0⟩, h2⟩, h3⟩, h4⟩ := hP
   cases items with
   | nil => simp [coerceProg, coerceList, h1]
   | cons a rest =>
@@ -737,7 +737,7 @@ theorem coerceProg_refines {K : Type} [Add K] [Sub K] [Mul K] [Div K]
       rw [List.any_map]; rfl
     have hall : ((a :: rest).map (·.item)).all (fun it => it.dim == a.item.dim) = (a :: rest).all (fun it => it.item.dim == a.item.dim) := by
       rw [List.all_map]; rfl
-    simp only [coerceProg, h1, h2, h3, if_true, List.head?_cons, hbody, Val.apply]
+    simp only [coerceProg, h1, h0, h2, h3, if_true, List.head?_cons, hbody, Val.apply, Bool.not_true, Bool.false_eq_true, if_false]
     rw [show coerceList ne ((a :: rest).map (·.item)) =
         (if ((a :: rest).map (·.item)).any (fun it => ne a.item it) then
           if ((a :: rest).map (·.item)).all (fun it => it.dim == a.item.dim) then
